@@ -448,3 +448,136 @@ func WorkloadExpansion(p *core.Program, r *core.Report, rule string) {
 	}
 	r.Floor(rule+"-key", 3)
 }
+
+// WorkloadIdentity is C17-identity: wherever the engine identifies an owner (a comparison, a map key, a joined key)
+// by Owner.Name it must also use Owner.Kind, and the key under which the pods generated for a workload are stored
+// must contain the kind - the peer string does (namespace/name[kind]), so anything coarser lets two workloads that
+// differ in kind only replace each other.
+func WorkloadIdentity(p *core.Program, r *core.Report, rule string) {
+	n := 0
+	for _, fd := range p.Funcs {
+		info := fd.Pkg.TypesInfo
+		nameUse, kindUse := false, false
+		var pos token.Pos
+		var parents []ast.Node
+		ast.Inspect(fd.Decl.Body, func(nd ast.Node) bool {
+			if nd == nil {
+				parents = parents[:len(parents)-1]
+				return true
+			}
+			if se, ok := nd.(*ast.SelectorExpr); ok {
+				isName := fieldPathEndsWith(info, se, "Owner", "Name")
+				isKind := fieldPathEndsWith(info, se, "Owner", "Kind")
+				if isName || isKind {
+					// identity use: operand of ==/!=, an index, or an element of a slice literal (joined key)
+					id := false
+					for i := len(parents) - 1; i >= 0 && i >= len(parents)-3; i-- {
+						switch x := parents[i].(type) {
+						case *ast.BinaryExpr:
+							if x.Op == token.EQL || x.Op == token.NEQ {
+								if v, isC := core.ConstString(info, x.Y); !(isC && v == "") {
+									id = true
+								}
+							}
+							if x.Op == token.ADD {
+								continue
+							}
+						case *ast.IndexExpr:
+							if x.Index == parents[min(i+1, len(parents)-1)] || x.Index == ast.Expr(se) {
+								id = true
+							}
+						case *ast.CompositeLit:
+							if _, isSlice := info.TypeOf(x).Underlying().(*types.Slice); isSlice {
+								id = true
+							}
+						}
+						break
+					}
+					if id && isName {
+						nameUse = true
+						if !pos.IsValid() {
+							pos = se.Pos()
+						}
+					}
+					if id && isKind {
+						kindUse = true
+					}
+				}
+			}
+			parents = append(parents, nd)
+			return true
+		})
+		if !nameUse {
+			continue
+		}
+		n++
+		r.Check(kindUse, rule, fd.Key()+": identifies an owner by name together with its kind", p.Pos(pos), "Owner.Name and Owner.Kind are both part of the comparison / key",
+			"an owner is identified by its name (and namespace) without its kind: two workloads of different kinds with the same name are taken for one, so one of them is dropped from the report or their pods are rejected as inconsistent")
+	}
+	r.RuleCounts[rule+"-sites"] = n
+	r.Floor(rule+"-sites", 2)
+	// the key of the pods generated for a workload
+	iw := p.Func(core.PkgEval, "PolicyEngine", "insertWorkload")
+	pw := p.Func(core.PkgK8s, "", "PodsFromWorkloadObject")
+	if iw == nil || pw == nil {
+		r.Lost(rule, "(*PolicyEngine).insertWorkload / k8s.PodsFromWorkloadObject")
+		return
+	}
+	info := iw.Pkg.TypesInfo
+	kindP := iw.Obj.Type().(*types.Signature).Params().At(1)
+	keyHasKind := false
+	var keyPos token.Pos
+	ast.Inspect(iw.Decl.Body, func(nd ast.Node) bool {
+		as, ok := nd.(*ast.AssignStmt)
+		if !ok || len(as.Lhs) != 1 {
+			return true
+		}
+		ix, ok := ast.Unparen(as.Lhs[0]).(*ast.IndexExpr)
+		if !ok {
+			return true
+		}
+		if f := core.FieldOf(info, ix.X); f == nil || f.Name() != "podsMap" {
+			return true
+		}
+		keyPos = as.Pos()
+		// the key expression, following one local definition
+		exprs := []ast.Expr{ix.Index}
+		if id := core.RootIdent(ix.Index); id != nil {
+			if d, _ := defOf(iw, id); d != nil {
+				exprs = append(exprs, d)
+			}
+		}
+		for _, e := range exprs {
+			ast.Inspect(e, func(m ast.Node) bool {
+				if id, ok := m.(*ast.Ident); ok && info.ObjectOf(id) == kindP {
+					keyHasKind = true
+				}
+				if se, ok := m.(*ast.SelectorExpr); ok && fieldPathEndsWith(info, se, "Owner", "Kind") {
+					keyHasKind = true
+				}
+				return true
+			})
+		}
+		return true
+	})
+	// or the generated pod name itself contains the kind
+	pinfo := pw.Pkg.TypesInfo
+	kindP2 := pw.Obj.Type().(*types.Signature).Params().At(1)
+	nameHasKind := false
+	ast.Inspect(pw.Decl.Body, func(nd ast.Node) bool {
+		as, ok := nd.(*ast.AssignStmt)
+		if !ok || len(as.Lhs) != 1 || core.ExprStr(as.Lhs[0]) != "pod.Name" {
+			return true
+		}
+		ast.Inspect(as.Rhs[0], func(m ast.Node) bool {
+			if id, ok := m.(*ast.Ident); ok && pinfo.ObjectOf(id) == kindP2 {
+				nameHasKind = true
+			}
+			return true
+		})
+		return true
+	})
+	r.Check(keyHasKind || nameHasKind, rule, iw.Key()+": the pods generated for a workload are stored under a key that contains the workload's kind", p.Pos(keyPos), "",
+		"the pods generated for a workload are called <name>-<i> and stored under namespace/<name>-<i>: a Deployment and a StatefulSet (or any two kinds) with the same name, or a Pod resource called <name>-1, replace each other in the pods map, and the replaced workload silently disappears from the report")
+}
+
